@@ -133,13 +133,16 @@ type scenario struct {
 	KeepQueueOpen bool `json:"keepQueueOpen"`
 	// QueueFirst (pool): the owner closes the job queue itself while the pool is still live, a moment later
 	// the pool; idle workers meet a closed queue: no job exists, so nothing may reach the panic handler
-	QueueFirst bool      `json:"queueFirst"`
-	Plan       vlib.Plan `json:"plan"`
+	QueueFirst bool `json:"queueFirst"`
+	// Batch (pool): SetWorkerBatchSize (0 = 1): with larger batches fewer workers are spawned per queued job
+	// and a worker may serve several jobs in a row around the close
+	Batch int       `json:"batch,omitempty"`
+	Plan  vlib.Plan `json:"plan"`
 }
 
 func (s scenario) String() string {
 	var sb strings.Builder
-	fmt.Fprintf(&sb, "%s cap=%d iters=%d after=%d closeAfter=%d stress=%v keepQueueOpen=%v queueFirst=%v", kindNames[s.Kind], s.Cap, s.Iters, s.After, s.CloseAfter, s.Stress, s.KeepQueueOpen, s.QueueFirst)
+	fmt.Fprintf(&sb, "%s cap=%d iters=%d after=%d closeAfter=%d stress=%v keepQueueOpen=%v queueFirst=%v batch=%d", kindNames[s.Kind], s.Cap, s.Iters, s.After, s.CloseAfter, s.Stress, s.KeepQueueOpen, s.QueueFirst, s.Batch)
 	if s.Directed >= 0 {
 		fmt.Fprintf(&sb, " directed=%s@%s", opNames[s.Directed], windowPoint(s.Kind, s.Directed))
 	} else if s.Directed == -2 {
@@ -310,7 +313,7 @@ func runScenario(s scenario) result {
 			p.SetIsJobQueueClosedWhenClose(false)
 			defer q.Close()
 		}
-		p.SetWorkerSizeMaximum(3).SetWorkerSizeStandBy(2).SetWorkerBatchSize(1).
+		p.SetWorkerSizeMaximum(3).SetWorkerSizeStandBy(2).SetWorkerBatchSize(maxInt(s.Batch, 1)).
 			SetSpawnWorkerDuration(50 * time.Microsecond).SetWorkerExpiryDuration(time.Millisecond).
 			SetScheduleRetryInterval(30 * time.Microsecond).
 			SetPanicHandler(func(v interface{}) {
@@ -513,6 +516,9 @@ func genScenario(t *rapid.T, directedOnly bool) scenario {
 	s.Cap = rapid.SampledFrom([]int{0, 1, 4}).Draw(t, "cap")
 	s.KeepQueueOpen = s.Kind == kPool && rapid.IntRange(0, 2).Draw(t, "keepQueueOpen") == 0
 	s.QueueFirst = s.Kind == kPool && rapid.IntRange(0, 2).Draw(t, "queueFirst") == 0
+	if s.Kind == kPool {
+		s.Batch = rapid.SampledFrom([]int{0, 3, 5}).Draw(t, "batch")
+	}
 	s.Directed = -1
 	if directedOnly || rapid.Bool().Draw(t, "directed") {
 		cands := []int{}
